@@ -97,10 +97,44 @@ class C11(Prop):
                 "+-(1/2+eps)res}; plus NaN, +-inf, -0, out-of-range. Oracle (on answers of the real code, exact "
                 "rational arithmetic): the selected pattern's decoded value is the nearest of the three neighbouring "
                 "representable values up to the float slack, |decoded - input| <= res/2 + slack, and selection is "
-                "monotone over each sorted input group. Non-trivial = distinct in-range off-grid inputs.")
+                "monotone over each sorted input group. The hand-written scaled fields (bias_m of 1059/1065: f32, 0.01 m, "
+                "14 bits; of 1230: f32, 0.02 m, 16 bits) get the same neighbourhoods through one-entry ENC ops and "
+                "the same oracle on the decoded frame. Non-trivial = distinct in-range off-grid inputs.")
 
     def trusted(self):
         return ["IEEE-754 round-to-nearest-even (SoftFloat model, compared bit-exactly with the hardware)"]
+
+    BIAS_FIELDS = ((1059, Fraction(1, 100), 14), (1065, Fraction(1, 100), 14), (1230, Fraction(2, 100), 16))
+    DELTAS = (-(0.5 + 1e-3), -0.5, -(0.5 - 1e-3), -0.25, -1e-3, -1e-6, 0.0, 1e-6, 1e-3, 0.25, 0.5 - 1e-3, 0.5, 0.5 + 1e-3)
+
+    def bias_plan(self, ctx):
+        """one-entry bias lists of 1059 / 1065 / 1230 with bias_m in grid neighbourhoods: (n, res, k, [(x, op)])"""
+        from msggen import Gen
+        g = Gen(ctx.root, ctx.repo)
+        r = ctx.rng("bias")
+        thorough = ctx.tier == "thorough"
+        out = []
+        for n, res, L in self.BIAS_FIELDS:
+            lo, hi = -(1 << (L - 1)), (1 << (L - 1)) - 1
+            ks = {lo, lo + 1, hi, hi - 1, 0, 1, -1, 2, -2, 3, -3, 50, -50, (1 << (L - 2)), -(1 << (L - 2))}
+            dd = dict_ints(0, hi, ctx.repo, 12 if not thorough else 80, r) + new_ints(0, hi, ctx.repo)
+            ks.update(v for v in dd if lo <= v <= hi)
+            ks.update(-v for v in dd if lo <= -v <= hi)
+            for _ in range(300 if thorough else 12):
+                ks.add(r.randrange(lo, hi + 1))
+            head = g.frag(r, g.mod_of[n], "valid")
+            c = [k for k, t in enumerate(head) if t.startswith("c")][0]
+            if n == 1230:
+                ent = ["g1:67"]
+            else:
+                fid = "df_msg%d_biases" % n
+                _, b, a = g.s["bias_tables"][fid][0]
+                ent = ["i1", "g%d:%d" % (b, a)]
+            for k in sorted(ks):
+                xs = sorted(set(to_f32((k + dlt) * float(res)) for dlt in self.DELTAS))
+                group = [(x, "ENC %d %s" % (n, " ".join(head[:c] + ["c1"] + ent + ["f%x" % f_bits("f32", x)]))) for x in xs]
+                out.append((n, res, L, k, group))
+        return out
 
     def fields(self, sch):
         return [sch["dfs"][i] for i in sch["df_order"] if sch["dfs"][i]["dt"] in ("f32", "f64") and sch["dfs"][i]["res"]]
@@ -164,9 +198,64 @@ class C11(Prop):
                 yield (f"DFENC {d['id']} {self.tok(d, x)}", "special-" + name, False)
             if d["inv"] is not None:
                 yield (f"DFENC {d['id']} N", "absent", False)
+        self._bias_plan = self.bias_plan(ctx)
+        for n, res, L, k, group in self._bias_plan:
+            for x, op in group:
+                yield (op, "bias-grid-neighbourhood", True)
+
+    def bias_oracle(self, ctx):
+        """nearest-value oracle for the hand-written bias fields, on frames built and decoded by the real code"""
+        plan = self.bias_plan(ctx)
+        ops = [op for _, _, _, _, group in plan for _, op in group]
+        fails = 0
+        for prof, exe in (("release", ctx.exe_release), ("relchk", ctx.exe_relchk)):
+            ans = ctx.run_all([exe], ops, 10.0)
+            decs = ["DEC " + a for a in ans if not (a.startswith("ERR") or a in ("PANIC", "CRASH", "HANG", "BAD-OP"))]
+            dans = iter(ctx.run_all([exe], decs, 10.0))
+            i = 0
+            for n, res, L, k, group in plan:
+                lo, hi = -(1 << (L - 1)), (1 << (L - 1)) - 1
+                prev = None
+                for x, op in group:
+                    a = ans[i]; i += 1
+                    if a.startswith("ERR") or a in ("PANIC", "CRASH", "HANG", "BAD-OP"):
+                        if lo < k < hi:
+                            fails += 1; self.fail_op(ctx, op, prof, f"in-range bias answered {a}")
+                        prev = None
+                        continue
+                    d = next(dans)
+                    t = d.split()
+                    fl = [w for w in t[2:] if w.startswith("f")]
+                    if not d.startswith(f"MSG {n} ") or len(fl) != 1:
+                        if lo < k < hi:
+                            fails += 1; self.fail_op(ctx, op, prof, "frame decodes to " + d[:60])
+                        prev = None
+                        continue
+                    if not (lo < k < hi):
+                        prev = None
+                        continue
+                    out = Fraction(bits_f("f32", int(fl[0][1:], 16)))
+                    xv = Fraction(x)
+                    slack = (abs(xv) + abs(out)) * Fraction(8, 2 ** 24) + res * Fraction(1, 2 ** 20)
+                    err = abs(out - xv)
+                    if err > res / 2 + slack:
+                        fails += 1
+                        self.fail_op(ctx, op, prof, f"bias {x} comes back as {float(out)}: |decoded - input| = {float(err)} > res/2 + slack")
+                    if prev is not None and out < prev:
+                        fails += 1
+                        self.fail_op(ctx, op, prof, f"not monotone: {float(out)} after {float(prev)}")
+                    prev = out
+        ctx.cov["oracle_failures"] += fails
+        ctx.cov["bias_oracle_evaluations"] = len(ops) * 2
+
+    def fail_op(self, ctx, op, prof, why):
+        if len(ctx.violations) < 100:
+            ctx.violations.append({"op": op, "profile": prof, "oracle": "FAIL " + why})
 
     def run(self, ctx):
         extra = super().run(ctx)
+        if not ctx.replay:
+            self.bias_oracle(ctx)
         # property oracle on the answers of the real code
         sch = load_schema(ctx)
         ops, decs = [], []
